@@ -312,6 +312,12 @@ func GenKind(r *hx.Rng, depth int, kind string) *Sch {
 		s.Name = fmt.Sprintf("Map(%s, %s)%s%s", k.Name, v.Name, sz, modsSuffix(s.Mods))
 	case "record":
 		v := GenMember(r, d, "", false) // value first: it is the position GenOver fills
+		for numericTypeAny(v) {
+			// not modelled: Record's pre-emptive check (types/record.go:736-742) rejects every non-numeric value — nil, "5" —
+			// BEFORE asking a value schema that is a core.ZodType[any] whose Internals().Type is int / float; no built-in
+			// schema is (transforms and pipes report their own type), only a user type delegating Internals to an Int/Float
+			v = GenMember(r, d, "", false)
+		}
 		var k *Sch
 		if r.Chance(30) {
 			k = leaf("Enum(\"x\",\"y\")", gozod.Enum("x", "y"), "str", []any{"x", "y"}, []any{"z"}, nil)
@@ -522,6 +528,15 @@ func GenKind(r *hx.Rng, depth int, kind string) *Sch {
 		panic("kind " + kind)
 	}
 	return s
+}
+
+func numericTypeAny(m *Sch) bool {
+	t, ok := m.Arg().(core.ZodType[any])
+	if !ok {
+		return false
+	}
+	ty := t.Internals().Type
+	return ty == core.ZodTypeInt || ty == core.ZodTypeFloat
 }
 
 func fieldNames(s *Sch) string {
